@@ -237,10 +237,10 @@ func cmdCheck(args []string) {
 		}
 		defer os.RemoveAll(wd)
 	}
-	timeout := 10
+	timeout := 40
 	two := false
 	if *tier == "thorough" {
-		timeout = 60
+		timeout = 120
 		two = true
 	}
 	var all []*Obligation
@@ -325,7 +325,7 @@ func cmdCheck(args []string) {
 		}
 	}
 	t1 := time.Now()
-	V.discharge(all, SolveOpts{TimeoutS: timeout, TwoSolver: two, Workdir: wd, Workers: 16})
+	V.discharge(all, SolveOpts{TimeoutS: timeout, TwoSolver: two, Workdir: wd, Workers: 10})
 	solveS := time.Since(t1).Seconds()
 
 	groupVacuity(all)
